@@ -3,6 +3,9 @@ C17 — Eq is value equality and the ordering comparisons are coherent.
 -/
 import Ajson.Model.Cmp
 import Ajson.Proofs.HeapBasics
+import Ajson.Proofs.EqValue
+import Ajson.Proofs.LazyParsed
+import Ajson.Proofs.Acyclic
 
 namespace Ajson.Props.C17
 open Ajson Ajson.Heap
@@ -117,5 +120,64 @@ theorem C17_null (h : Heap) (a b : Id) (ha : h.typeOf a = .null) (hb : h.typeOf 
     h.eq (some a) (some b) = (h, .ok true) := by
   have : (h.typeOf a != h.typeOf b) = false := by simp [ha, hb]
   simp [Heap.eq, Heap.eqN, this, ha, hb]
+
+/-! ### Eq is equality of the denoted values
+
+`absVal` (Proofs/Refine) is the plain data a node denotes — the value every C05 theorem speaks about and the one `Unpack` answers
+(C05_unpack_answers_the_value); `jvalEq` (Proofs/EqValue) is equality of JSON values: numbers by IEEE `==` of the float64 (so
+spelling is irrelevant: `1.0`, `1e0`, `10e-1` denote the same bits), strings and booleans by decoded content, arrays element by
+element, objects as maps — same number of members and every member of the left found on the right with an equal value, in whatever
+order either side stores them. `CellsOK`: the cached child list / member map of a container, where filled, says what the children
+map says (true of every parsed heap and kept by every read; the mutators reset the cell of each container they change). -/
+
+/-- **`Eq` answers exactly the equality of the two values**, on every sound heap, whatever reads happened before and however the two
+nodes came about (parsed, constructed, edited): the hypotheses speak about the heap, not its history -/
+theorem C17_eq_is_value_equality {h : Heap} (hs : Proofs.Struct h) (hc : Proofs.CellsOK h) (a b : Nat) (ha : a < h.size) (hb : b < h.size)
+    (va vb : JVal) (ea : Proofs.absVal (h.size + 1) h a = some va) (eb : Proofs.absVal (h.size + 1) h b = some vb) :
+    (h.eq (some a) (some b)).2 = .ok (Proofs.jvalEq va vb) ∧ (h.neq (some a) (some b)).2 = .ok (!Proofs.jvalEq va vb) := by
+  have e := Proofs.eq_value h a b va vb hs hc ha hb ea eb
+  refine ⟨e, ?_⟩
+  unfold Heap.neq
+  generalize h.eq (some a) (some b) = res at e
+  obtain ⟨h1, o⟩ := res
+  simp only [] at e; subst e; rfl
+
+/-- … in particular for every accepted text, after ANY reads (laziness is invisible to `Eq`) -/
+theorem C17_eq_on_parsed_trees (data : Bytes) (v : Spec.STree) (hp : Spec.parseRef data = .ok v) :
+    ∃ H, unmarshal data = .ok (H, 0) ∧ ∀ H' : Heap, Proofs.Fills H H' → ∀ (a b : Nat), a < H'.size → b < H'.size → ∀ va vb,
+      Proofs.absVal (H'.size + 1) H' a = some va → Proofs.absVal (H'.size + 1) H' b = some vb →
+      (H'.eq (some a) (some b)).2 = .ok (Proofs.jvalEq va vb) := by
+  obtain ⟨H, hu, he, _⟩ := Proofs.coherent_unmarshal data v hp
+  obtain ⟨H2, hu2, hs, _⟩ := Proofs.acyc_unmarshal data v hp
+  rw [hu] at hu2; cases hu2
+  refine ⟨H, hu, fun H' F a b ha hb va vb ea eb => ?_⟩
+  exact Proofs.eq_value H' a b va vb (hs.of_same F.1) ((Proofs.CellsOK.of_empty he).fills hs F) ha hb ea eb
+
+/-- the comparison is a read: it fills empty value cells only, and no node's value changes -/
+theorem C17_comparisons_are_reads (h : Heap) (a b : Option Id) (o : Ord4) :
+    Proofs.Fills h (h.eq a b).1 ∧ Proofs.Fills h (h.neq a b).1 ∧ Proofs.Fills h (h.cmp o a b).1 :=
+  ⟨Proofs.eq_fills h a b, Proofs.neq_fills h a b, Proofs.cmp_fills o h a b⟩
+
+/-- **Le, Leq, Ge, Geq on two numbers are <, <=, >, >= of the float64 values; on two strings, of the decoded byte strings** -/
+theorem C17_order_of_the_values (o : Ord4) (h : Heap) (a b : Nat) :
+    (∀ x y, h.typeOf a = .numeric → h.typeOf b = .numeric → Proofs.scalarVal h a = some (.num x) → Proofs.scalarVal h b = some (.num y) →
+      (h.cmp o (some a) (some b)).2 = .ok (match o with | .le => F64.lt x y | .leq => F64.le x y | .ge => F64.lt y x | .geq => F64.le y x)) ∧
+    (∀ x y, h.typeOf a = .string → h.typeOf b = .string → Proofs.scalarVal h a = some (.str x) → Proofs.scalarVal h b = some (.str y) →
+      (h.cmp o (some a) (some b)).2 = .ok (match o with
+        | .le => bytesLt x y | .leq => bytesLt x y || x == y | .ge => bytesLt y x | .geq => bytesLt y x || x == y)) :=
+  ⟨fun x y ta tb sx sy => Proofs.cmp_numbers o h a b x y ta tb sx sy, fun x y ta tb sx sy => Proofs.cmp_strings o h a b x y ta tb sx sy⟩
+
+/-- witness (kernel evaluation): two spellings, key orders and a duplicate key — both sides denote a value, `Eq` answers true, and
+so does `jvalEq` -/
+example :
+    (match unmarshal "[{\"a\":1.0,\"b\":[\"x\",null],\"a\":10e-1},{\"b\":[\"\\u0078\",null],\"a\":1}]".toUTF8.toList with
+     | .error _ => false
+     | .ok (h0, root) =>
+       match h0.getIndex (some root) 0, h0.getIndex (some root) 1 with
+       | .ok a, .ok b =>
+         match (h0.eq (some a) (some b)).2, Proofs.absVal (h0.size + 1) h0 a, Proofs.absVal (h0.size + 1) h0 b with
+         | .ok r, some va, some vb => r && Proofs.jvalEq va vb
+         | _, _, _ => false
+       | _, _ => false) = true := by decide +kernel
 
 end Ajson.Props.C17
